@@ -17,3 +17,21 @@ for d in sorted((V / "seeded").iterdir()):
     needs = (m.get("needs") or "").replace("\n", " ").replace("|", "/")
     site = (m.get("site") or "").replace("|", "/")
     print(f"| {d.name} | {site[:110]} — {needs[:230]}{'…' if len(needs) > 230 else ''} | {', '.join(m.get('caught_by_checks_quick', [])) or '**not yet**'} | {(m.get('note') or 'caught as delivered').replace('|','/')[:330]} |")
+
+print("\n### 11.4 Cost and coverage per check\n")
+print("quick = last run recorded in `evidence/<id>.json`; thorough = last complete thorough run (`docs/THOROUGH.txt`, copied from the `vp run` logs).\n")
+print("| check | level | quick: wall s / evaluations | thorough: wall s / evaluations / exhaustive within the stated bound |\n|---|---|---|---|")
+import re
+th = {}
+for ln in (V / "docs" / "THOROUGH.txt").read_text().splitlines():
+    m = re.match(r"\[(C\d\d)\] tier=thorough .*", ln)
+    if m:
+        kv = dict(x.split("=", 1) for x in ln.split()[1:] if "=" in x)
+        th[m.group(1)] = kv  # later lines win
+for f in sorted((V / "evidence").glob("C*.json")):
+    e = json.loads(f.read_text())
+    c = e["coverage"]
+    n = c.get("evaluations") or c.get("transitions") or c.get("states")
+    t = th.get(e["property_id"], {})
+    tn = t.get("evaluations") or t.get("transitions") or "?"
+    print(f"| {e['property_id']} | {e['level']} | {e['wall_s']} / {n} ({e['tier']}, seed {e['seed']}) | {t.get('wall', '?')} / {tn} / {t.get('exhaustive', '?')} |")
